@@ -130,6 +130,8 @@ def strat_routes(tier):
         'prec': st.sampled_from([64, 64, 64, 32]),
         'fwd': st.booleans(),
         'via': st.sampled_from(['executor', 'executor', 'function', 'wavefront']), 'layout': U.layouts,
+        # Q next to (but not on) a value for which shape*Q is a whole number of samples: relative offsets of 1e-7 .. 1e-4
+        'qnear': st.one_of(st.just(0), st.just(0), st.sampled_from([4e-6, -4e-6, 1e-7, -3e-5, 1e-4])),
         'phys': st.fixed_dictionaries({'dx': st.sampled_from([0.1, 0.25, 1.0, 0.037]), 'wvl': st.sampled_from([0.5, 0.6328, 1.55]),
                                        'efl': st.sampled_from([10.0, 100.0, 1234.5])}),
         'seed': U.seeds,
@@ -157,6 +159,14 @@ def check_routes(case, ctx):
     _reset()
     shape, out, Q, shift = case['shape'], case['out'], U.tup(case['Q']), tuple(case['shift'])
     prec, dtype, fwd, via = case['prec'], case['dtype'], case['fwd'], case['via']
+    qn = case.get('qnear', 0)
+    if qn:
+        # snap Q to the nearest value with shape*Q integral, then move it off by the drawn relative amount
+        def near(q, n):
+            k = max(1, round(q * n))
+            return (k / n) * (1 + qn)
+        Q = tuple(near(q, n) for q, n in zip(U.as_pair(Q), shape)) if isinstance(Q, tuple) else near(Q, shape[1])
+        ctx.label('Q-near-fft-grid')
     outp = U.as_pair(U.tup(out))
     if via == 'wavefront':
         # Wavefront methods document `samples` tuples as (x, y) but pass them on as (rows, cols); stay out of that
@@ -376,10 +386,38 @@ class ExecutorHistory:
         _cmp(ctx, got, ref_p, ref_m, shifted, _tol(self.prec, op['dtype']), 'history:vs-reference', what, _scale(f, Q))
 
 
+
+# ---- (e) a few large transforms (cheap thin arrays; bases of > 100 MiB) --------------------------------------------------
+def enum_large(tier):
+    sizes = [2900] if tier == 'quick' else [2900, 3001, 4096]
+    for n in sizes:
+        for method in ('mdft', 'czt'):
+            for fwd in (True, False):
+                yield {'n': n, 'method': method, 'fwd': fwd}
+
+
+def check_large(case, ctx):
+    """thin (n x 2) fields onto (n x 2) grids with n ~ 3000: the routes still equal the textbook DFT (big basis matrices, long chirps)."""
+    from prysm.fttools import mdft, czt
+    _reset()
+    n, method, fwd = case['n'], case['method'], case['fwd']
+    ctx.nt(True)
+    ctx.label(method, 'fwd' if fwd else 'inv')
+    f = U.field(n, (n, 2), 'complex')
+    Q = (1.25, 2)
+    ref = U.ref_dft(f, Q, (n, 2), fwd=fwd)
+    fn = getattr(mdft, 'dft2' if fwd else 'idft2') if method == 'mdft' else getattr(czt, 'czt2' if fwd else 'iczt2')
+    out = ctx.call(fn, f, Q, (n, 2))
+    _reset()
+    arg = 2 * math.pi * (n / 2) * (n / 2) / (n * 1.25)
+    _cmp(ctx, out, ref, ref, False, max(TOL64, 1e-13 * arg), '%s:large' % method, '%s %s (%d,2)->(%d,2)' % (method, 'fwd' if fwd else 'inv', n, n), _scale(f, Q))
+
+
 CLAUSES = [
     EnumClause('geometry_sweep', enum_geom, check_geom),
     HypClause('random_routes', strat_routes, check_routes, examples={'quick': 800, 'thorough': 4000}, shards={'quick': 8, 'thorough': 16}),
     HypClause('fft_route', strat_fft, check_fft, examples={'quick': 600, 'thorough': 3000}, shards={'quick': 2, 'thorough': 8}),
+    EnumClause('large_transforms', enum_large, check_large, shards={'quick': 8, 'thorough': 12}),
     MachineClause('executor_histories', ExecutorHistory, strat_hist_init, strat_hist_op, steps={'quick': 20, 'thorough': 30},
                   examples={'quick': 120, 'thorough': 1000}, shards={'quick': 5, 'thorough': 16}),
 ]
